@@ -23,9 +23,8 @@ func TestVerifE3HTTPConcurrentLookupd(t *testing.T) {
 	opts := NewOptions()
 	opts.Logger = vfE3CCNull{}
 	opts.LogLevel = lg.FATAL
-	opts.TCPAddress = "127.0.0.1:0"
-	opts.HTTPAddress = "127.0.0.1:0"
-	opts.BroadcastAddress = "127.0.0.1"
+	opts.TCPAddress, opts.HTTPAddress = vfLoop2()
+	opts.BroadcastAddress = vfLoopHost(opts.TCPAddress)
 	l, err := New(opts)
 	if err != nil {
 		t.Fatal(err)
